@@ -45,4 +45,4 @@ b, e = "<!-- seed-table-begin -->", "<!-- seed-table-end -->"
 if b in s and e in s:
     s = s[:s.index(b) + len(b)] + "\n" + "\n".join(table) + "\n" + s[s.index(e):]
     open(p, "w").write(s)
-print(f"{len(rows)} seeds; caught by own property's check: {sum(1 for r in rows if r[1] in r[4].split(', '))}; caught by some check: {sum(1 for r in rows if r[4])}")
+print(f"{len(rows)} seeds; caught by own property's check: {sum(1 for r in rows if r[1] in r[4].split(' (')[0].split(', '))}; caught by some check: {sum(1 for r in rows if r[4])}")
